@@ -8,6 +8,7 @@ import (
 	"path/filepath"
 
 	"github.com/NethermindEth/juno/consensus/types"
+	"github.com/NethermindEth/juno/utils/verifhook"
 )
 
 const (
@@ -62,10 +63,12 @@ func writePruneWatermark(walDir string, height types.Height) error {
 		return errors.Join(writeErr, closeErr)
 	}
 
+	verifhook.Point("walstore:watermark:tmp-synced")
 	if err := os.Rename(tmpPath, path); err != nil {
 		_ = os.Remove(tmpPath)
 		return fmt.Errorf("writePruneWatermark: replace watermark: %w", err)
 	}
+	verifhook.Point("walstore:watermark:renamed")
 	if err := syncDir(walDir); err != nil {
 		return fmt.Errorf("writePruneWatermark: sync watermark directory: %w", err)
 	}
